@@ -8,9 +8,9 @@ from sa.abseval import ev, Unknown
 from sa.consteval import ConstEnv
 
 EXPL = ('Decides the complete decision table of post_process_findings from its AST: (1) the strict-kex marker expression over all valuations of '
-        '{kex present, client audit, client marker offered, server marker offered}; (2) every call site of the Terrapin warning adder and every append to the advisory list, with '
-        'its category, the list it iterates and its path condition, evaluated over {marker, CBC offered, ETM offered}; no other call site of the adder exists in the package and it '
-        'appends to the warning row only; (3) the name-shape predicates of the enabled / not-enabled helper pairs agree, read the role-appropriate list, and classify every database name of that '
+        '{kex present, client audit, client marker offered, server marker offered}; (2) the body of post_process_findings is abstractly interpreted (sa/listinterp.py: lists of symbolic names, forking on un-modelled conditions) on all 66 rows of '
+        '{kex present, role, client marker, server marker, ChaCha offered, CBC offered, ETM offered}; the (category, name) pairs handed to the warning adder, the names in the advisory note and the suppression list must equal the published rule on every path; '
+        'no other call site of the adder exists in the package and it appends to the warning row only; (3) the name-shape predicates of the enabled / not-enabled helper pairs agree, read the role-appropriate list, and classify every database name of that '
         'shape; (4) the not-enabled lists flow into the suppression list, through both recommendation paths, where suppressed names are skipped; (5) the table subscript on a peer-supplied name is total. '
         'Not decided: wording of the advisory note.')
 
@@ -80,7 +80,10 @@ def run(repo, rep, tier):
     asg = [n for n in walk_no_nested(ppf) if isinstance(n, ast.Assign) and unparse(n.targets[0]) == 'kex_strict_marker']
     init = [a for a in asg if unparse(a.value) == 'False' and a in ppf.body]
     sets = [a for a in asg if unparse(a.value) == 'True']
-    rep.check('marker', 'marker flag starts False and is set True at one guarded site', len(asg) == 2 and len(init) == 1 and len(sets) == 1, asg[0] if asg else ppf, 'definitions of kex_strict_marker: %s' % [unparse(a) for a in asg])
+    if not (len(asg) == 2 and len(init) == 1 and len(sets) == 1):
+        # another shape of marker detection: the decision table below (abstract interpretation over all rows, which include role x both markers) decides it; only the diagnosis is coarser
+        rep.note('marker detection is not of the form "flag = False; if <test>: flag = True" (%d definitions); decided by the decision table only' % len(asg))
+        sets = []
     if len(sets) == 1:
         conds = [(t, p) for t, p, k in path_condition(sets[0])]
         from sa.slicer import uses as _uses
@@ -108,74 +111,97 @@ def run(repo, rep, tier):
         for lit in (C_LIT, S_LIT):
             rep.check('marker', 'marker literal %s is a database kex name' % lit, lit in db2['kex'], sets[0], 'marker literal %r unknown to the database' % lit)
 
-    # ---- rule 2: site table --------------------------------------------------------------------------------------
-    # local lists: name -> helper producing it
-    producers = {}
-    for n in walk_no_nested(ppf):
-        if isinstance(n, ast.Assign) and isinstance(n.value, ast.Call) and call_name(n.value) in helpers and isinstance(n.targets[0], ast.Name):
-            producers[n.targets[0].id] = call_name(n.value)
+    # ---- rule 2: decision table by abstract interpretation ----------------------------------------------------------
+    # The body of post_process_findings is interpreted (sa/listinterp.py) on every row of
+    #   kex present x client audit x client marker x server marker x ChaCha offered x CBC offered x ETM offered,
+    # with the enabled-helpers summarised as "the peer's names of that shape" (two symbolic names per class; rule 3
+    # establishes that summary) and calls of the adder recorded as effects.  The warned (category, name) pairs and the
+    # names in the advisory note must equal the published rule on every path of every row.
+    from sa.listinterp import Interp
+    from sa.abseval import Opaque
+    ENABLED = {'_get_chacha_ciphers_enabled': 'chacha', '_get_cbc_ciphers_enabled': 'cbc', '_get_etm_macs_enabled': 'etm'}
+    NOT_ENABLED = {'_get_chacha_ciphers_not_enabled': 'chacha', '_get_cbc_ciphers_not_enabled': 'cbc', '_get_etm_macs_not_enabled': 'etm'}
+    CAT = {'chacha': 'enc', 'cbc': 'enc', 'etm': 'mac'}
+    C_LIT, S_LIT = 'kex-strict-c-v00@openssh.com', 'kex-strict-s-v00@openssh.com'
+    rows = 0
+    bad = []
+    nsites = set()
+    for bits in itertools.product([False, True], repeat=7):
+        val = dict(zip(['kexp', 'client', 'c', 's', 'chacha', 'cbc', 'etm'], bits))
+        if not val['kexp'] and (val['c'] or val['s'] or val['chacha'] or val['cbc'] or val['etm']):
+            continue        # nothing is offered when there is no KEXINIT
+        rows += 1
+        toks = {k: (['<%s-1>' % k, '<%s-2>' % k] if val[k] else []) for k in ('chacha', 'cbc', 'etm')}
 
-    def iter_source(expr):
-        if isinstance(expr, ast.Call) and call_name(expr) in helpers:
-            return call_name(expr)
-        if isinstance(expr, ast.Name) and expr.id in producers:
-            return producers[expr.id]
-        return None
-    atoms_tab = {'kex_strict_marker': 'marker'}
-    for var, h in producers.items():
-        if h == '_get_cbc_ciphers_enabled':
-            atoms_tab['len(%s) > 0' % var] = 'cbc'
-        if h == '_get_etm_macs_enabled':
-            atoms_tab['len(%s) > 0' % var] = 'etm'
-    atz = text_atomizer(atoms_tab)
-    sites = []      # (kind, category, source helper, conds, node)
-    for n in walk_no_nested(ppf):
-        if isinstance(n, ast.Call) and call_name(n) == '_add_terrapin_warning':
-            cat = n.args[1].value if len(n.args) > 1 and isinstance(n.args[1], ast.Constant) else None
-            sites.append(('warn', cat, n))
-        elif isinstance(n, ast.Call) and unparse(n.func) == 'algs_to_note.append':
-            sites.append(('note', None, n))
-    rep.floor('sites', 'Terrapin marking sites', len(sites), 6)
-    REQUIRED = {
-        ('warn', 'enc', '_get_chacha_ciphers_enabled'): lambda v: not v['marker'],
-        ('warn', 'enc', '_get_cbc_ciphers_enabled'): lambda v: not v['marker'] and v['cbc'] and v['etm'],
-        ('warn', 'mac', '_get_etm_macs_enabled'): lambda v: not v['marker'] and v['cbc'] and v['etm'],
-        ('note', None, '_get_chacha_ciphers_enabled'): lambda v: v['marker'],
-        ('note', None, '_get_cbc_ciphers_enabled'): lambda v: v['marker'] and v['cbc'] and v['etm'],
-        ('note', None, '_get_etm_macs_enabled'): lambda v: v['marker'] and v['cbc'] and v['etm'],
-    }
-    seen_keys = {}
-    for kind, cat, n in sites:
-        conds = path_condition(n)
-        loops = [t for t, p, k in conds if k == 'for']
-        if len(loops) != 1:
-            rep.check('sites', 'site iterates exactly one enabled-list: %s' % unparse(n)[:60], False, n, 'Terrapin marking outside a loop over an enabled-algorithm list')
-            continue
-        src = iter_source(loops[0])
-        # the marked name is the loop variable
-        lp = n
-        while not isinstance(lp, ast.For):
-            lp = lp._parent
-        marked = n.args[2] if kind == 'warn' and len(n.args) > 2 else (n.args[0] if n.args else None)
-        rep.check('sites', 'marked name is the loop variable: %s' % unparse(n)[:60], marked is not None and unparse(marked) == unparse(lp.target), n, 'marks %s instead of the iterated algorithm' % (unparse(marked) if marked is not None else '?'))
-        key = (kind, cat, src)
-        if key not in REQUIRED:
-            rep.check('sites', 'site %s is one of the documented six' % (key,), False, n, 'unexpected Terrapin marking site: kind=%s category=%s list=%s' % key)
-            continue
-        seen_keys.setdefault(key, []).append(n)
-        bad = []
-        for bits in itertools.product([False, True], repeat=3):
-            val = dict(zip(['marker', 'cbc', 'etm'], bits))
-            got = all(eval_prop(t, atz, val) == p for t, p, k in conds if k != 'for')
-            want = REQUIRED[key](val)
+        def hook(call, env, interp, toks=toks):
+            nm = call_name(call)
+            if nm in ENABLED:
+                return (True, list(toks[ENABLED[nm]]))
+            if nm in NOT_ENABLED:
+                return (True, ['<not-enabled-%s>' % NOT_ENABLED[nm]])
+            return None
+        kexlist = ['curve25519-sha256', 'diffie-hellman-group-exchange-sha256'] + ([C_LIT] if val['c'] else []) + ([S_LIT] if val['s'] else [])
+        env = {
+            'algs.ssh2kex': Opaque() if val['kexp'] else None, 'algs.ssh2kex.kex_algorithms': kexlist,
+            'algs.ssh2kex is not None': val['kexp'], 'algs.ssh2kex is None': not val['kexp'], 'client_audit': val['client'],
+            "'%s' in algs.ssh2kex.kex_algorithms" % C_LIT: val['c'], "'%s' in algs.ssh2kex.kex_algorithms" % S_LIT: val['s'],
+            "'%s' not in algs.ssh2kex.kex_algorithms" % C_LIT: not val['c'], "'%s' not in algs.ssh2kex.kex_algorithms" % S_LIT: not val['s'],
+            'dh_rate_test_notes': '',
+        }
+        it = Interp(call_hook=hook, effect_names=('_add_terrapin_warning',))
+        finals = it.run(ppf.body, env)
+        marker = val['kexp'] and ((val['client'] and val['c']) or (not val['client'] and val['s']))
+        want_warn, want_note = set(), set()
+        if val['chacha']:
+            (want_note if marker else want_warn).update(('enc', t) for t in toks['chacha'])
+        if val['cbc'] and val['etm']:
+            (want_note if marker else want_warn).update(('enc', t) for t in toks['cbc'])
+            (want_note if marker else want_warn).update(('mac', t) for t in toks['etm'])
+        want_note = {t for c, t in want_note}
+        projections = {}
+        for fe in finals:
             rep.evals()
-            if got != want:
-                bad.append((val, got, want))
-        rep.check('sites', '%s %s over %s: condition table (8 rows)' % (kind, cat or '', src), not bad, n,
-                  'Terrapin rule broken for %s/%s over %s: %s fires=%s, rule=%s' % ((kind, cat, src) + (bad[0] if bad else ({}, None, None))),
-                  sample={'rule': 'sites', 'site': list(key), 'conds': [(unparse(t)[:60], p, k) for t, p, k in conds]})
-    for key in REQUIRED:
-        rep.check('sites', 'site %s present exactly once' % (key,), len(seen_keys.get(key, [])) == 1, ppf, 'Terrapin marking site %s occurs %d times' % (key, len(seen_keys.get(key, []))), stmt='site %s' % (key,))
+            if fe.get('<outcome>') != 'return' or not isinstance(fe.get('<return>'), tuple) or len(fe['<return>']) != 2:
+                raise AnalysisError('post_process_findings: a path does not return (suppression list, notes) computably')
+            sup, notes = fe['<return>']
+            if isinstance(sup, Opaque) or isinstance(notes, Opaque) or any(isinstance(x, Opaque) for x in list(sup) + list(notes)):
+                raise AnalysisError('post_process_findings: returned lists are not computable by the list interpreter')
+            got_warn = set()
+            for nm, args, k in fe['<effects>']:
+                nsites.add(k)
+                if len(args) != 3 or isinstance(args[1], Opaque) or isinstance(args[2], Opaque):
+                    raise AnalysisError('Terrapin adder called with uncomputable arguments at %s' % stmt_text(it.nodes[k]))
+                got_warn.add((args[1], args[2]))
+            text = ' '.join(str(x) for x in notes)
+            got_note = {t for k2 in toks for t in toks[k2] if t in text}
+            alltoks = {t for k2 in toks for t in toks[k2]} | {'<%s-%d>' % (k2, i) for k2 in toks for i in (1, 2)}
+            foreign = sorted((c, n) for c, n in got_warn if n not in alltoks)
+            if foreign:
+                bad.append(('warning', val, 'warning attached to %s, which is not an offered ChaCha20-Poly1305 / CBC / ETM name' % (foreign,)))
+                continue
+            projections.setdefault((frozenset(got_warn), frozenset(got_note), len(text) > 0, tuple(sorted(x for x in sup if x.startswith('<')))), fe.get('<forks>', []))
+            if len(projections) > 1:
+                a, b = list(projections.values())[:2]
+                raise AnalysisError('Terrapin outcome depends on a condition the analysis does not model: %s' % (sorted(set(a) ^ set(b)) or a))
+            if got_warn != want_warn:
+                extra, missing = sorted(got_warn - want_warn), sorted(want_warn - got_warn)
+                bad.append(('warning', val, 'wrongly warned: %s' % extra if extra else 'not warned: %s' % missing))
+            if got_note != want_note:
+                extra, missing = sorted(got_note - want_note), sorted(want_note - got_note)
+                bad.append(('advisory note', val, 'wrongly named: %s' % extra if extra else 'not named: %s' % missing))
+            if (len(text) > 0) != bool(want_note):
+                bad.append(('advisory note', val, 'note %s although %s algorithms are to be named' % ('present' if text else 'absent', len(want_note))))
+            for k2 in NOT_ENABLED.values():
+                if '<not-enabled-%s>' % k2 not in sup:
+                    bad.append(('suppression', val, 'not-enabled %s names missing from the suppression list' % k2))
+            if any(t in sup for k2 in toks for t in toks[k2]):
+                bad.append(('suppression', val, 'an offered name is suppressed from recommendations'))
+    rep.floor('table', 'decision-table rows interpreted', rows, 66)
+    rep.floor('table', 'distinct adder call sites reached', len(nsites), 1)
+    first = bad[0] if bad else None
+    rep.check('table', 'warnings, advisory note and suppression list equal the published Terrapin rule on all %d rows (abstract interpretation of post_process_findings)' % rows, not bad, ppf,
+              'Terrapin rule broken (%s): with %s -- %s [%d row/path deviations]' % ((first[0], {k: v for k, v in first[1].items()}, first[2], len(bad)) if first else ('', {}, '', 0)),
+              stmt='terrapin decision table: %s' % (first[0] if first else ''), sample={'rule': 'table', 'rows': rows, 'adder_sites_reached': len(nsites)})
     # who may call the adder: nobody else, and no other writer of the Terrapin text
     for (m, q), f in repo.all_funcs().items():
         for n in walk_no_nested(f):
@@ -187,10 +213,6 @@ def run(repo, rep, tier):
     apps = [n for n in walk_no_nested(add) if isinstance(n, ast.Call) and isinstance(n.func, ast.Attribute) and n.func.attr == 'append' and n.args and isinstance(n.args[0], ast.Constant)]
     ok = len(apps) == 1 and unparse(apps[0].func.value) == 'db[category][algorithm_name][2]' and not [k for t, p, k in path_condition(apps[0])]
     rep.check('sites', 'adder appends the warning to row 2 (warnings) of db[category][name], unconditionally', ok, apps[0] if apps else add, 'adder writes to %s' % (unparse(apps[0].func.value) if apps else '?'))
-    # advisory note joins exactly algs_to_note, iff non-empty
-    joins = [n for n in walk_no_nested(ppf) if isinstance(n, ast.Call) and isinstance(n.func, ast.Attribute) and n.func.attr == 'join' and n.args and unparse(n.args[0]) == 'algs_to_note']
-    ok = len(joins) == 1 and [(unparse(t), p) for t, p, k in path_condition(joins[0])] == [('len(algs_to_note) > 0', True)]
-    rep.check('sites', 'advisory note names exactly the noted algorithms, iff any', ok, joins[0] if joins else ppf, 'advisory note is not built from algs_to_note under len(algs_to_note) > 0')
 
     # ---- rule 3: predicate agreement -------------------------------------------------------------------------------------
     PAIRS = [('chacha', '_get_chacha_ciphers_enabled', '_get_chacha_ciphers_not_enabled', 'enc', 'encryption', 'chacha20-poly1305'),
